@@ -92,8 +92,8 @@ def part_jobs(tier):
          ("pipe all: 1x1 S=3 len 1..6", "pipe", consts("pipe", Shapes="{11}", S=3, MaxL=6)),
          ("pipe all: 2x1 S=2 len 1..%d" % (6 if th else 5), "pipe", consts("pipe", Shapes="{21}", MaxL=6 if th else 5)),
          ("pipe all: 1x2, 2x2 S=2 len 1..3", "pipe", consts("pipe", Shapes="{12, 22}", MaxL=3)),
-         ("pipe long: 2x1, 24 frames, transitions within {0,17,18,19,21,22}", "pipe",
-          consts("pipe", Shapes="{21}", Family='"long"'))]
+         ("pipe long: 2x1, 24 frames, transitions within %s" % ("{0,17,18,19,21,22}" if th else "{0,17,18,19,21}"), "pipe",
+          consts("pipe", Shapes="{21}", Family='"long"', LongFrames="{0, 17, 18, 19, 21, 22}" if th else "{0, 17, 18, 19, 21}"))]
     if th:
         J.append(("pipe long: 1x2 + 3x1, 24 frames, transitions within {1,18,19,21}", "pipe",
                   consts("pipe", Shapes="{12, 31}", Family='"long"', LongFrames="{1, 18, 19, 21}")))
